@@ -115,12 +115,15 @@ func (t *Input) CoerceIn(v interface{}) (interface{}, error) {
 			ov := tv[k]
 			if ov == nil {
 				if f.Default != nil { // if not set then add the default value if not nil
+					// A copy, the value is coerced in place later and must
+					// not share lists or objects with the schema.
+					dv := dupValue(f.Default)
 					if rt != nil {
-						if err := t.reflectSetKey(rv, k, f.Default); err != nil {
+						if err := t.reflectSetKey(rv, k, dv); err != nil {
 							return nil, inErr(err, k)
 						}
 					} else {
-						tv[k] = f.Default
+						tv[k] = dv
 					}
 				} else if _, ok := f.Type.(*NonNull); ok {
 					return nil, fmt.Errorf("%s is required but missing", k)
@@ -150,6 +153,26 @@ func (t *Input) CoerceIn(v interface{}) (interface{}, error) {
 		}
 	}
 	return v, nil
+}
+
+// dupValue makes a copy of a value that shares no list or object with the
+// original.
+func dupValue(v interface{}) interface{} {
+	switch tv := v.(type) {
+	case map[string]interface{}:
+		m := make(map[string]interface{}, len(tv))
+		for k, mv := range tv {
+			m[k] = dupValue(mv)
+		}
+		return m
+	case []interface{}:
+		a := make([]interface{}, len(tv))
+		for i, mv := range tv {
+			a[i] = dupValue(mv)
+		}
+		return a
+	}
+	return v
 }
 
 func inErr(err error, k string) error {
